@@ -322,7 +322,12 @@ func processNormalMappingData(mapping Mapping, remainder []byte, size *Integer, 
 	map_bytes := remainder[:size.Int()]
 	remainder = remainder[size.Int():]
 
-	vals, _, mappingValueErrs := ReadMappingValues(map_bytes, *size)
+	vals, unparsed, mappingValueErrs := ReadMappingValues(map_bytes, *size)
+	if len(unparsed) > 0 && len(mappingValueErrs) == 0 {
+		// The size field says these bytes belong to the mapping, yet they are not a pair.
+		mappingValueErrs = append(mappingValueErrs,
+			oops.Errorf("mapping format violation: %d trailing bytes do not form a key/value pair", len(unparsed)))
+	}
 	err = append(err, mappingValueErrs...)
 	mapping.vals = vals
 
